@@ -9,6 +9,12 @@ TRUST = ("Trusted base: Go type checker and go/ssa construction (x/tools v0.29.0
 
 # id -> (claimed?, technique, level text, not-decided / note, design ref)
 P = {
+ "C16": (True, "static analysis: AST idiom matching for map ranges, finite decision table lifted from the AST (2^10 option valuations) cross-checked against the documentation's tables, template parse-tree def-use, template/runtime field agreement",
+         "Decides map-order independence and absence of ambient inputs on the plugin path, that the accept/reject/emit decision is a total conflict-free function of the option lattice agreeing with doc/method-options.md, that N/A options do not influence emitted code, that templates only reference existing runtime fields/identifiers/functions, that the reserved-name set covers the static code's declarations, and that rejections are fatal. Necessary structural conditions.",
+         "Not decided: that the output compiles for every service definition; termination/panic-freedom for every input; protogen internals.", "DESIGN.md section 3, C16"),
+ "C17": (True, "static analysis: descriptor decoding from committed byte literals + typed-AST binding rules; expansion of the current template constants by the checker's own template engine with a reference funcMap and token-level comparison with the committed files; AST equality of the static bundle",
+         "Decides, against the embedded descriptors, name/type/call-type/reply-discipline/QuorumSpec binding of every committed stub and handler (57 methods), and that each of the 19 committed generated files of the root module equals the expansion of the current templates (comments and formatting aside), that the bundled static code equals the dev sources, and the version marker. Necessary structural conditions; the reference funcMap is cross-checked against the generator's only for option dependencies and helper shapes.",
+         "Not decided: run-time equivalence of fresh and committed stubs; services that are not committed; doc comments copied from .proto files.", "DESIGN.md section 3, C17"),
  "C13": (True, "static analysis: enumeration of panicking constructs on the decode path with dominance-checked guards and a reasoned table with machine-checked side conditions; sibling agreement (frame table, direction table) between encoder and decoder",
          "Decides that no unguarded panicking construct exists on gorums' part of the decode path, that gorumsMarshal and gorumsUnmarshal agree on the frame table and AllowPartial, the direction table (request/response types), the error defaults of the codec's type switches, status transport, and that a message-carrying reply is delivered only when its method matches the pending call's. Necessary structural conditions; value round-trip equality is delegated to protobuf.",
          "Not decided: round-trip equality for every value; panics inside protobuf/gRPC.", "DESIGN.md section 3, C13"),
